@@ -13,6 +13,24 @@ CHECKS = {
  "C08": ("stateful property-based testing: invariants (check(), lookup/enodes coherence, slot coverage, find idempotence) after every operation of generated operation sequences over all test languages, in the default and the checks build",
          "no panic and a consistent structure after every single operation of generated sequences (add, add_syn, union, rewrite, match, extract)",
          "well-formed inputs only; explanations+checks configuration not covered (DESIGN 7)"),
+ "C09": ("metamorphic + differential: lookup vs add (creates nothing <=> lookup succeeds), variants that are represented by construction (alpha, renaming, replacement by united subterm), renaming equivariance; slots of results against the ground closure",
+         "probe terms on reachable e-graphs (mixed histories incl. rewriting)",
+         "representedness of variants is by construction; redundancy oracle = ground closure (sound direction for this use)"),
+ "C10": ("exhaustive enumeration of generator sets (<=3 generators on 2-4 points) + random sets on 5-6 points against brute-force subgroup closure, directly on the group structure (hook) and through union/eq on multi-slot leaves; redundancy variant judged by the ground closure",
+         "exhaustive for the space the property names, random beyond",
+         "hook wrapper delegates without logic"),
+ "C11": ("metamorphic relation: the same history under two injective spellings of the slot alphabet (incl. reversed internal order and names colliding with internal fresh names), run in fresh threads, all observables compared in abstract names",
+         "renaming equivariance of every observable on generated mixed histories",
+         "rule pool keeps its own pattern slot names"),
+ "C12": ("metamorphic relation: a history and a random topological re-ordering with orientation flips must give the same partition / live classes / slot and symmetry counts",
+         "order and orientation independence on generated add/union histories",
+         "none beyond bounded sizes"),
+ "C13": ("history invariants: recorded equalities persist, old handles usable (find/eq/extract), slot sets shrink, progress lexicographically monotone, after every operation of long mixed histories",
+         "stateful exploration of long histories with invariants over everything recorded earlier",
+         "none beyond bounded sizes"),
+ "C16": ("reference canonicaliser on a model AST + algebraic shape laws + occurrence partition + syntax round-trip; exhaustive over small slot assignments, random beyond",
+         "all node variants of five derived languages with repeated and shadowing names",
+         "child invocations are bijective maps"),
  "C17": ("model-based stateful testing: name<->slot model over generated sequences of fresh / numeric / named / print+parse",
          "freshness and injectivity of names against a model map, in a fresh thread per case",
          "names denoting numbers >= 2^30 are outside the domain"),
